@@ -456,14 +456,14 @@ class ExprMixin:
             return z3.BoolVal(False)
         if k == "dict":
             _, has, _ = self.dct(cont)
-            return z3.Select(has(cont.term), self.coerce(item, cont.ty.args[0], line).term)
+            return self.sel(has(cont.term), self.coerce(item, cont.ty.args[0], line).term)
         if k == "set":
             return z3.Select(cont.term, self.coerce(item, cont.ty.args[0], line).term)
         if k == "list":
             i = z3.Const(f"ini{line}", z3.IntSort())
             n = self.list_len(cont)
             el = SV(self.list_get(cont, i), cont.ty.args[0])
-            return z3.Exists([i], z3.And(0 <= i, i < n, self.py_eq(el, item, line)))
+            return self._q("exists", i, z3.And(0 <= i, i < n, self.py_eq(el, item, line)))
         if k == "str":
             f = self.w.func("str_contains", self.w.StrSort, self.w.StrSort, z3.BoolSort())
             return f(cont.term, self.coerce(item, T.STR).term)
@@ -523,7 +523,7 @@ class ExprMixin:
             if ft is not None:
                 _, _, accs = self.w.obj(t.name)
                 ref = base.ref.ext(("f", t.name, attr)) if base.ref else None
-                return SV(accs[attr](base.term), ft, ref=ref, fresh=base.fresh)
+                return SV(self.acc(accs[attr], base.term), ft, ref=ref, fresh=base.fresh)
             return BoundMethod(base, attr)
         if t.kind == "union":
             s = self.w.sort(t)
@@ -620,9 +620,9 @@ class ExprMixin:
                 raise PathEnd()
             k = self.coerce(idx, t.args[0], line).term
             _, has, val = self.dct(base)
-            self.safety(z3.Select(has(base.term), k), "KeyError", line)
+            self.safety(self.sel(has(base.term), k), "KeyError", line)
             ref = base.ref.ext(("k", k)) if base.ref else None
-            return SV(z3.Select(val(base.term), k), t.args[1], ref=ref, fresh=base.fresh)
+            return SV(self.sel(val(base.term), k), t.args[1], ref=ref, fresh=base.fresh)
         if t.kind == "tuple":
             i = z3.simplify(self.coerce(idx, T.INT, line).term)
             if not z3.is_int_value(i):
